@@ -34,6 +34,12 @@ inductive Err where
   | valueError | indexError | zeroDiv | unsupported
 deriving DecidableEq, Repr
 
+instance {α} [DecidableEq α] : DecidableEq (Except Err α)
+  | .ok a, .ok b => if h : a = b then isTrue (h ▸ rfl) else isFalse (fun e => by cases e; exact h rfl)
+  | .error a, .error b => if h : a = b then isTrue (h ▸ rfl) else isFalse (fun e => by cases e; exact h rfl)
+  | .ok _, .error _ => isFalse (fun e => by cases e)
+  | .error _, .ok _ => isFalse (fun e => by cases e)
+
 /-! ## dense linear algebra (the specification side) -/
 
 def dot : Vec → Vec → Rat
